@@ -304,7 +304,7 @@ func TestC20_Mixes(t *testing.T) {
 	ev := evFor("C20")
 	groups := Groups(tier() == "thorough")
 	rcheck(t, 60, 2000, func(t *rapid.T) {
-		gi := groups[rapid.IntRange(0, len(groups)-1).Draw(t, "group")]
+		gi := groups[uniformInt(t, 0, len(groups)-1, "group")]
 		seed := fmt.Sprintf("mix-%x", genSeed(t, "seed"))
 		P0, Q0, k0 := c20Shared(gi, seed)
 		twin := c20PointMethods(gi, P0, Q0, k0)
